@@ -184,6 +184,12 @@ def judge(V, cases_by_i, obs_list, crashes, prof, stats):
     for o in obs_list:
         exp, got, why, ctor = o["exp"], o["got"], o["whyat"], o["ctor"]
         cls = got.split(":")[0]
+        if ctor.endswith("output_size_needed"):       # beyond C19 (DESIGN 11.8): printed, counted, never a violation
+            k = "%s:%s" % (ctor, cls)
+            if k not in stats["size_fn_divergences"]:
+                print("DIVERGENCE (beyond C19) %s (%s build): %s. Input %s" % (ctor, prof, got, shape_text(cases_by_i[o["i"]])))
+            stats["size_fn_divergences"][k] = stats["size_fn_divergences"].get(k, 0) + 1
+            continue
         if cls == "panic":
             key = "C19:panic:%s:%s" % (why if why != "none" else "representable_input", ctor)
             what = "panicked"
@@ -228,7 +234,7 @@ def run(prop, tier, seed, replay=None):
     files = write_shards(cases, wd)
     t0 = time.time()
     res = run_profiles(bindirs, files, wd)
-    stats = dict(err_on_representable={}, violating_calls=0, keys={})
+    stats = dict(err_on_representable={}, violating_calls=0, keys={}, size_fn_divergences={})
     calls, counts, executed = 0, {}, 0
     for prof, (sums, crashes) in res.items():
         shapes_done = sum(s["shapes"] for s in sums) + len(crashes)
@@ -262,6 +268,7 @@ def run(prop, tier, seed, replay=None):
              "Err is expected or a size / count lies within 16 of the u16 limit",
         outcome_counts_ctor_expected_observed=counts,
         violation_classes=stats["keys"],
+        size_calculator_divergences_beyond_C19=stats["size_fn_divergences"],
         err_on_representable_input_allowed_by_property=stats["err_on_representable"],
         profiles=sorted(res.keys()), exhaustive=True,
         model=dict(module="NostrLayout.tla", cfg="Gen_NostrLayout_%s.cfg" % tier, invariants=["Sanity", "Emit"]),
@@ -286,7 +293,7 @@ def run_replay(prop, path, bindirs, wd, V):
     rc, txt = run_one(os.path.join(bindirs[prof], "layoutdrv"), fp, out, extra=["--verbose"], timeout=300)
     lines = [l for l in txt.splitlines() if rp.get("ctor", "*") in ("*", "") or rp["ctor"] in l]
     print("\n".join(lines[:60]))
-    stats = dict(err_on_representable={}, violating_calls=0, keys={})
+    stats = dict(err_on_representable={}, violating_calls=0, keys={}, size_fn_divergences={})
     calls = 0
     if rc != 0 or not os.path.exists(out):
         judge(V, {c["i"]: c}, [], [dict(case=c, rc=rc)], prof, stats)
